@@ -4,4 +4,4 @@ Require Extraction.
 Require Import ExtrOcamlBasic.
 Require Import Base Overlap ParaSplit.
 Extraction Language OCaml.
-Extraction "../ocaml/gen/c12_model.ml" run_iter run_group.
+Extraction "../ocaml/gen/c12_model.ml" run_iter run_group run_long.
